@@ -59,7 +59,9 @@ impl SegmentSizes {
     }
 
     pub fn on_payload_delivered(&mut self, payload_size: usize) {
-        let payload_size = payload_size.min(u16::MAX as usize) as u16;
+        // Whatever the peer sent or acknowledged, we must never go above our own ceiling (link MTU,
+        // lowered by failed probes).
+        let payload_size = payload_size.min(self.max_ss as usize) as u16;
         self.min_ss = self.min_ss.max(payload_size);
         self.max_ss = self.max_ss.max(self.min_ss);
     }
